@@ -532,6 +532,16 @@ class C13(runner.Check):
             "of non-default elements up to the per-specialisation cap; each candidate inside the contract is run through "
             "the definition and through the compiled kernel (ctypes, buffers of the declared/touched extent between guard "
             "zones, every filler/guard byte pattern) and status, written outputs, guard zones and const inputs are compared. "
+            "class H: kernels whose YAML entry has no executable definition but for which the harness carries one "
+            "(model/kernelspec_extra.py: awkward_sort, argsort, quick_sort, quick_argsort, sorting_ranges(_length), unique, "
+            "NumpyArray_subrange_equal, ListOffsetArray_argsort_strings, NumpyArray_sort_asstrings_uint8, "
+            "ListOffsetArray/IndexedArray_local_preparenext_64, NumpyArray_copy, contiguous_copy, getitem_next_null, "
+            "fill_tocomplex) are compared exactly like A/B; sorting definitions are insertion sorts on exact Python numbers "
+            "(NaN first); the sort family is explored scalar tuple by scalar tuple, smallest first, each on its share of the "
+            "cap, with NaN in the floating-point domain and without the 2**32+1 offsets; where the answer is not unique "
+            "(argsort with stable=false, quick_argsort, argsort_strings with is_stable=false, local_preparenext) a checker "
+            "accepts every per-range permutation whose key sequence equals that of the stable answer; 64-bit integer data "
+            "include max-1, min+1 and the pair 2**53, 2**53+1. "
             "class C (+ class B with non-executable definition): role-aware bounded-exhaustive inputs, every specialisation "
             "x every byte pattern; guards, const inputs, independence of the pattern, agreement of the specialisations. "
             "non-trivial = the definition wrote an output element or raised ValueError (class C: the kernel wrote an output "
@@ -549,6 +559,9 @@ class C13(runner.Check):
         "64-bit index-like arguments take 2**32+1 instead of INT64_MAX as their huge member",
         "float(x) in a definition is a C cast (usable in range()); a by-value call of awkward_regularize_rangeslice in a "
         "definition is read as the by-reference call of the C source, with Python's slice.indices as its meaning",
+        "the harness-side definitions (class H) state the meaning the callers in src/libawkward rely on; where a kernel is "
+        "only defined under a calling contract the enumeration is restricted to it (awkward_sort: parentslength == length; "
+        "quick sorts: maxlevels in {1, 8}, work arrays tmpbeg/tmpend of maxlevels elements with unspecified content)",
         "class C kernels (no Python definition) get guard-zone, crash, pattern-independence and cross-specialisation checks only; "
         "reads outside an extent are seen only when the result depends on them (no sanitizer on ctypes buffers)",
         "known crash findings are re-executed in a forked child on every run (quarantine field of known_findings.json)",
@@ -602,11 +615,11 @@ class C13(runner.Check):
     def run_shard(self, shard):
         if os.environ.get("AKV_C13_TIMES"):
             import time
-            t0 = time.time()
+            t0 = time.process_time()
             r = self._run_shard(shard)
             with open(os.environ["AKV_C13_TIMES"], "a") as f:
                 f.write("%.2f %r %s nontrivial=%d states=%d %r\n" % (
-                    time.time() - t0, shard, self.kernels()[shard[2]]["name"] if len(shard) > 2 else "",
+                    time.process_time() - t0, shard, self.kernels()[shard[2]]["name"] if len(shard) > 2 else "",
                     r["nontrivial"], r["states"], sorted(r["outcomes"].items())))
             return r
         return self._run_shard(shard)
@@ -783,12 +796,13 @@ class C13(runner.Check):
                 st.sample({"case": describe(case_dict(spec, scalars, rs, fills[0], errored)), "agrees": True})
             return True
 
+        case_cap = int(T["case_cap"] * opts.get("budget", 1.0))
         try:
             if opts.get("per_root"):
-                runs, counted, rdone, exhausted = e2.explore_by_root(roots, len(scal), body, T["case_cap"])
+                runs, counted, rdone, exhausted = e2.explore_by_root(roots, len(scal), body, case_cap)
                 levels = None
             else:
-                runs, counted, levels, exhausted = e2.explore(roots, len(scal), body, T["case_cap"])
+                runs, counted, levels, exhausted = e2.explore(roots, len(scal), body, case_cap)
         except StopIteration:
             return found.get("case")
         pool.unmark()
@@ -812,10 +826,10 @@ class C13(runner.Check):
             if not exhausted and levels is None:
                 why.append("case cap %d (%d candidates run, %d inside the contract): %d of %d scalar tuples (smallest "
                            "first) exhausted, the others cut at their budget share"
-                           % (T["case_cap"], runs, counted, rdone, len(roots)))
+                           % (case_cap, runs, counted, rdone, len(roots)))
             elif not exhausted:
                 why.append("case cap %d (%d candidates run, %d inside the contract): all candidates with < %d "
-                           "non-default elements done" % (T["case_cap"], runs, counted, levels))
+                           "non-default elements done" % (case_cap, runs, counted, levels))
             if rootcapped:
                 why.append("scalar tuples %d of %d" % (T["root_cap"], rootcapped))
             if shrink:
